@@ -183,8 +183,7 @@ class TbState:
         return s
 
 
-def c1_typestate(fb, rep):
-    clause = 'C12.1'
+def c1_typestate(fb, rep, clause='C12.1'):
     if rep.need(clause, fb.field(TT + '::tbGen'), 'field TranspositionTable::tbGen') is None:
         return
     ts = TbState(fb)
